@@ -40,7 +40,9 @@ MANIFEST = dict(
          '1 <= n < 16^(w-2) (w = 16 byte window of _read_until, regenerated), also with pipelined trailing data; mkChunks output '
          'is in the RFC 7230 chunked-body grammar for every n >= 1; the reader returns a body or DechunkError for every byte '
          'string and never exhausts the loop bound (termination); a coding is chosen only if enabled locally and declared '
-         'with q > 0 by the last header element naming it; request and response paths return the original body for any '
+         'with q > 0 by the last header element naming it, also for every response of a history with set_used_compression '
+         'after start and for notifications (coding declared by the Subscribe request); Content-Length never accompanies '
+         'Transfer-Encoding in what is sent; request and response paths return the original body for any '
          'codec with dec(enc x) = x; a body in a coding that is not enabled / not registered / rejected by the codec never '
          'yields a result. The model is compared with mk_chunks, _read_dechunk, parse_header, read_request_body, '
          'read_response_body, _send_soap_request and do_POST on generated and exhaustively enumerated inputs.',
